@@ -105,6 +105,7 @@ func sroaRound(pkgs []*packages.Package, dir string, overlay map[string][]byte, 
 			tf := p.Fset.File(f.Pos())
 			off := func(pos token.Pos) int { return tf.Offset(pos) }
 			text := func(n ast.Node) string { return string(src[off(n.Pos()):off(n.End())]) }
+			needImp := map[string]string{}
 			qual := func(ok *bool) types.Qualifier {
 				return func(q *types.Package) string {
 					if q == p.Types {
@@ -121,8 +122,10 @@ func sroaRound(pkgs []*packages.Package, dir string, overlay map[string][]byte, 
 							return q.Name()
 						}
 					}
-					*ok = false
-					return q.Name()
+					// not imported by this file: bring the import along under a private alias
+					alias := "_sroa_" + q.Name()
+					needImp[alias] = q.Path()
+					return alias
 				}
 			}
 			var edits []edit
@@ -238,6 +241,20 @@ func sroaRound(pkgs []*packages.Package, dir string, overlay map[string][]byte, 
 					}
 					return false
 				}
+				// headerOf: the if/switch statement (itself in a statement list) whose init statement s is
+				headerOf := func(s ast.Stmt) ast.Stmt {
+					switch pp := parent[s].(type) {
+					case *ast.IfStmt:
+						if pp.Init == s && inList(pp) {
+							return pp
+						}
+					case *ast.SwitchStmt:
+						if pp.Init == s && inList(pp) {
+							return pp
+						}
+					}
+					return nil
+				}
 				// one (lhs, rhs) pair of an assignment or a var spec; lhs may be nil for `_`
 				pair := func(stmt ast.Stmt, lhs *types.Var, lhsId *ast.Ident, rhs ast.Expr, single bool) {
 					r := rhs
@@ -256,7 +273,8 @@ func sroaRound(pkgs []*packages.Package, dir string, overlay map[string][]byte, 
 							if isPtr(lhs) != isPtr(y) {
 								find(lhs).bad, find(lhs).why = true, "pointer/value copy"
 							}
-							if !isPtr(lhs) {
+							if !isPtr(lhs) && !isInlResult(y) {
+								// (the result variable of an expanded helper is read exactly once, here: a move, not a copy)
 								find(lhs).copies++
 							}
 							union(lhs, y)
@@ -271,7 +289,7 @@ func sroaRound(pkgs []*packages.Package, dir string, overlay map[string][]byte, 
 						if x.Op == token.AND {
 							// x = &T{…}
 							if cl, isCL := x.X.(*ast.CompositeLit); isCL && isPtr(lhs) {
-								if tv, has := info.Types[cl]; has && types.Identical(tv.Type, find(lhs).named) && single && inList(stmt) {
+								if tv, has := info.Types[cl]; has && types.Identical(tv.Type, find(lhs).named) && single && (inList(stmt) || headerOf(stmt) != nil) {
 									accounted[lhsId] = true
 									c := find(lhs)
 									c.defs = append(c.defs, sroaDef{stmt, cl, x, lhs})
@@ -294,7 +312,7 @@ func sroaRound(pkgs []*packages.Package, dir string, overlay map[string][]byte, 
 							return
 						}
 					case *ast.CompositeLit:
-						if tv, has := info.Types[x]; has && !isPtr(lhs) && types.Identical(tv.Type, find(lhs).named) && single && inList(stmt) {
+						if tv, has := info.Types[x]; has && !isPtr(lhs) && types.Identical(tv.Type, find(lhs).named) && single && (inList(stmt) || headerOf(stmt) != nil) {
 							accounted[lhsId] = true
 							c := find(lhs)
 							c.defs = append(c.defs, sroaDef{stmt, x, x, lhs})
@@ -481,12 +499,43 @@ func sroaRound(pkgs []*packages.Package, dir string, overlay map[string][]byte, 
 				}
 				sort.Slice(classes, func(i, j int) bool { return classes[i].members[0].Pos() < classes[j].members[0].Pos() })
 				for _, c := range classes {
+					// the result variable of an expanded helper is declared (zero) and then assigned once per
+					// return, each time as a whole; after the helper's block it is only read. Every such
+					// assignment of a composite literal sets all the fields.
+					var extraDefs []sroaDef
+					var regionStmt ast.Stmt
+					if !c.bad && len(c.defs) >= 2 {
+						nZero, same := 0, true
+						for _, d := range c.defs {
+							if d.v != c.defs[0].v {
+								same = false
+							}
+							if d.lit == nil {
+								nZero++
+							}
+						}
+						if same && nZero == 1 && inlNameRe.MatchString(c.defs[0].v.Name()) && strings.Contains(c.defs[0].v.Name(), "_r") {
+							var lits []sroaDef
+							for _, d := range c.defs {
+								if d.lit != nil {
+									lits = append(lits, d)
+								}
+							}
+							for _, d := range c.defs {
+								if d.lit == nil {
+									regionStmt = d.stmt // the object lives from its declaration on
+								}
+							}
+							c.defs = lits[:1]
+							extraDefs = lits[1:]
+						}
+					}
 					if !c.bad && len(c.defs) != 1 {
 						c.bad, c.why = true, fmt.Sprintf("%d definitions", len(c.defs))
 					}
 					nVal := 0
 					for _, m := range c.members {
-						if !isPtr(m) {
+						if !isPtr(m) && !isInlResult(m) {
 							nVal++
 						}
 					}
@@ -503,7 +552,10 @@ func sroaRound(pkgs []*packages.Package, dir string, overlay map[string][]byte, 
 					if !c.bad {
 						// region: innermost function-literal body or loop body around the definition
 						region = fd.Body
-						for n := ast.Node(c.defs[0].stmt); n != nil; n = parent[n] {
+						if regionStmt == nil {
+							regionStmt = c.defs[0].stmt
+						}
+						for n := ast.Node(regionStmt); n != nil; n = parent[n] {
 							var b *ast.BlockStmt
 							switch x := n.(type) {
 							case *ast.FuncLit:
@@ -513,7 +565,7 @@ func sroaRound(pkgs []*packages.Package, dir string, overlay map[string][]byte, 
 							case *ast.RangeStmt:
 								b = x.Body
 							}
-							if b != nil && b.Pos() <= c.defs[0].stmt.Pos() && c.defs[0].stmt.End() <= b.End() {
+							if b != nil && b.Pos() <= regionStmt.Pos() && regionStmt.End() <= b.End() {
 								region = b
 								break
 							}
@@ -538,8 +590,8 @@ func sroaRound(pkgs []*packages.Package, dir string, overlay map[string][]byte, 
 						}
 						fmt.Printf("sroa %s in %s: %v bad=%v %s (defs %d, uses %d)\n", c.named.Obj().Name(), fd.Name.Name, ms, c.bad, c.why, len(c.defs), len(c.uses))
 					}
-					if c.bad {
-						continue
+					if c.bad || len(c.uses) == 0 {
+						continue // (nothing selects a field: what an earlier round left behind)
 					}
 					// field variables
 					counter++
@@ -570,57 +622,78 @@ func sroaRound(pkgs []*packages.Package, dir string, overlay map[string][]byte, 
 						return b.String()
 					}
 					tname := c.named.Obj().Name()
-					if def.lit == nil {
-						// var a T  →  var a T; fields zeroed (matters when the declaration is in a loop)
-						classEdits = append(classEdits, edit{off(def.stmt.End()), off(def.stmt.End()), "\n" + zero(nil)})
-					} else {
-						given := map[string]bool{}
-						type elt struct {
-							field string
-							val   ast.Expr
-							start token.Pos
-						}
-						var elts []elt
-						okLit := true
-						for k, e := range def.lit.Elts {
-							if kv, isKV := e.(*ast.KeyValueExpr); isKV {
-								kid, isId := kv.Key.(*ast.Ident)
-								if !isId {
-									okLit = false
-									break
-								}
-								elts = append(elts, elt{kid.Name, kv.Value, kv.Pos()})
-								given[kid.Name] = true
-							} else {
-								if k >= c.st.NumFields() {
-									okLit = false
-									break
-								}
-								elts = append(elts, elt{c.st.Field(k).Name(), e, e.Pos()})
-								given[c.st.Field(k).Name()] = true
-							}
-						}
-						if !okLit {
-							continue
-						}
-						prefix := string(src[off(def.stmt.Pos()):off(def.whole.Pos())]) // `x := ` / `x = ` / `var x *T = `
-						nilForm := "(*" + tname + ")(nil)"
-						if !isPtr(def.v) {
-							nilForm = tname + "{}"
-						}
-						tail := string(src[off(def.whole.End()):off(def.stmt.End())])
-						if len(elts) == 0 {
-							classEdits = append(classEdits, edit{off(def.stmt.Pos()), off(def.stmt.Pos()), zero(nil)})
-							classEdits = append(classEdits, edit{off(def.whole.Pos()), off(def.whole.End()), nilForm})
+					okAllDefs := true
+					rewriteDef := func(def sroaDef) {
+						if def.lit == nil {
+							// var a T  →  var a T; fields zeroed (matters when the declaration is in a loop)
+							classEdits = append(classEdits, edit{off(def.stmt.End()), off(def.stmt.End()), "\n" + zero(nil)})
 						} else {
-							// the value expressions stay where they are (edits inside them remain valid);
-							// only the text between them is rewritten
-							classEdits = append(classEdits, edit{off(def.stmt.Pos()), off(elts[0].val.Pos()), zero(given) + fv(elts[0].field) + " = "})
-							for k := 1; k < len(elts); k++ {
-								classEdits = append(classEdits, edit{off(elts[k-1].val.End()), off(elts[k].val.Pos()), "\n" + fv(elts[k].field) + " = "})
+							given := map[string]bool{}
+							type elt struct {
+								field string
+								val   ast.Expr
+								start token.Pos
 							}
-							classEdits = append(classEdits, edit{off(elts[len(elts)-1].val.End()), off(def.stmt.End()), "\n" + prefix + nilForm + tail})
+							var elts []elt
+							okLit := true
+							for k, e := range def.lit.Elts {
+								if kv, isKV := e.(*ast.KeyValueExpr); isKV {
+									kid, isId := kv.Key.(*ast.Ident)
+									if !isId {
+										okLit = false
+										break
+									}
+									elts = append(elts, elt{kid.Name, kv.Value, kv.Pos()})
+									given[kid.Name] = true
+								} else {
+									if k >= c.st.NumFields() {
+										okLit = false
+										break
+									}
+									elts = append(elts, elt{c.st.Field(k).Name(), e, e.Pos()})
+									given[c.st.Field(k).Name()] = true
+								}
+							}
+							if !okLit {
+								okAllDefs = false
+								return
+							}
+							prefix := string(src[off(def.stmt.Pos()):off(def.whole.Pos())]) // `x := ` / `x = ` / `var x *T = `
+							nilForm := "(*" + tname + ")(nil)"
+							if !isPtr(def.v) {
+								nilForm = tname + "{}"
+							}
+							tail := string(src[off(def.whole.End()):off(def.stmt.End())])
+							if hdr := headerOf(def.stmt); hdr != nil {
+								// defined in the header of an if/switch: the fields are set right before the
+								// statement (nothing lies between), the literal in the header becomes the zero value
+								var b strings.Builder
+								b.WriteString(zero(given))
+								for _, e := range elts {
+									fmt.Fprintf(&b, "%s = %s\n", fv(e.field), text(e.val))
+								}
+								classEdits = append(classEdits, edit{off(hdr.Pos()), off(hdr.Pos()), b.String()})
+								classEdits = append(classEdits, edit{off(def.whole.Pos()), off(def.whole.End()), nilForm})
+							} else if len(elts) == 0 {
+								classEdits = append(classEdits, edit{off(def.stmt.Pos()), off(def.stmt.Pos()), zero(nil)})
+								classEdits = append(classEdits, edit{off(def.whole.Pos()), off(def.whole.End()), nilForm})
+							} else {
+								// the value expressions stay where they are (edits inside them remain valid);
+								// only the text between them is rewritten
+								classEdits = append(classEdits, edit{off(def.stmt.Pos()), off(elts[0].val.Pos()), zero(given) + fv(elts[0].field) + " = "})
+								for k := 1; k < len(elts); k++ {
+									classEdits = append(classEdits, edit{off(elts[k-1].val.End()), off(elts[k].val.Pos()), "\n" + fv(elts[k].field) + " = "})
+								}
+								classEdits = append(classEdits, edit{off(elts[len(elts)-1].val.End()), off(def.stmt.End()), "\n" + prefix + nilForm + tail})
+							}
 						}
+					}
+					rewriteDef(def)
+					for _, d := range extraDefs {
+						rewriteDef(d)
+					}
+					if !okAllDefs {
+						continue
 					}
 					// declared-and-not-used: every variable of the class declared by a statement gets a blank use
 					for _, m := range c.members {
@@ -634,6 +707,11 @@ func sroaRound(pkgs []*packages.Package, dir string, overlay map[string][]byte, 
 								s = st
 								break
 							}
+						}
+						if as, isAs := s.(*ast.AssignStmt); isAs && s != nil && !inList(s) && as.Tok == token.DEFINE && len(as.Lhs) == 1 && len(as.Rhs) == 1 {
+							// declared in the header of an if/switch/for: "r := x" becomes "_ = x" (every use of r is a field selection and is replaced)
+							classEdits = append(classEdits, edit{off(as.Lhs[0].Pos()), off(as.TokPos) + 2, "_ ="})
+							continue
 						}
 						if s == nil || !inList(s) {
 							c.bad = true
@@ -655,6 +733,18 @@ func sroaRound(pkgs []*packages.Package, dir string, overlay map[string][]byte, 
 			if len(edits) == 0 {
 				continue
 			}
+			if len(needImp) > 0 {
+				var as []string
+				for a := range needImp {
+					as = append(as, a)
+				}
+				sort.Strings(as)
+				imp := ""
+				for _, a := range as {
+					imp += fmt.Sprintf("; import %s %q", a, needImp[a])
+				}
+				edits = append(edits, edit{off(f.Name.End()), off(f.Name.End()), imp})
+			}
 			out, ok := applyEdits(src, edits)
 			if !ok {
 				st.Note += "scalar replacement: overlapping edits in " + filepath.Base(name) + "; "
@@ -675,4 +765,10 @@ func parentExprOrSelf(parent map[ast.Node]ast.Node, n ast.Node) ast.Node {
 		}
 	}
 	return n
+}
+
+// isInlResult: v is the result variable the first stage declared for an expanded call
+// (assigned as a whole at each return of the helper, read once where the call stood).
+func isInlResult(v *types.Var) bool {
+	return inlNameRe.MatchString(v.Name()) && strings.Contains(v.Name(), "_r")
 }
